@@ -156,6 +156,12 @@ impl<T> VxIter<T> {
         ensures r == self@.len()
     { unimplemented!() }
 
+    /// Iterator::chain
+    #[verifier::external_body]
+    pub fn chain(self, other: VxIter<T>) -> (r: VxIter<T>)
+        ensures r@ == self@ + other@
+    { unimplemented!() }
+
     /// Iterator::collect::<Vec<_>>()
     #[verifier::external_body]
     pub fn collect_vec(self) -> (r: Vec<T>)
